@@ -22,10 +22,12 @@ def gen(rng):
     t1 = s.add({"kind": "tree", "entries": ents})
     t2 = s.add({"kind": "tree", "entries": [(m, n + b"x", r) for m, n, r in ents]})   # tie in entry count
     commits = [i for i, o in enumerate(s.objects) if o["kind"] == "commit"]
-    parents = rng.sample(commits, min(len(commits), rng.choice([0, 2, 4, 5])))
+    parents = rng.sample(commits, min(len(commits), rng.choice([0, 1, 2, 4, 5])))
+    if parents and rng.random() < 0.4:
+        parents = parents + [parents[0]] * rng.choice([1, 1, 3])     # repeated parent headers count as parents
     c1 = s.add({"kind": "commit", "tree": rng.choice([t1, t2]), "parents": parents, "date": rng.choice([1, 2000000000]),
                 "msg": b"M" * rng.choice([400, 900, 900]) + b"\n"})
-    c2 = s.add({"kind": "commit", "tree": t2, "parents": parents, "date": 5, "msg": b"W" * 900 + b"\n"})
+    c2 = s.add({"kind": "commit", "tree": t2, "parents": parents if rng.random() < 0.5 else parents[:1], "date": 5, "msg": b"W" * 900 + b"\n"})
     s.refs.append((rng.choice([b"refs/heads/aaa-first", b"refs/heads/zzz-last", b"refs/tags/mid"]), c1))
     if rng.random() < 0.5:
         s.refs.append((b"refs/heads/other-max", c2))
